@@ -20,87 +20,87 @@ P = {
     "C01": dict(family="C01", mc={Q: ("CfgsRS", dict(MaxCodes=2, MaxAT=4, MaxRT=3, MaxNow=2, Depth=7)),
                                   T: ("CfgsRS", dict(MaxCodes=2, MaxAT=6, MaxRT=4, MaxNow=3, Depth=10))},
                 genx={Q: ("CfgsRS", 4), T: ("CfgsStrategies", 5)},
-                sim={Q: ("CfgsStrategies", 400, 14), T: ("CfgsStrategies", 6000, 24)},
+                sim={Q: ("CfgsStrategiesC", 400, 14), T: ("CfgsStrategiesC", 6000, 24)},
                 simb=dict(MaxCodes=3, MaxAT=14, MaxRT=10, MaxNow=4),
                 more=[dict(family="C01b", mc={Q: ("CfgsExpiry", dict(MaxCodes=1, MaxAT=4, MaxRT=3, MaxNow=3, Depth=8)),
                                                T: ("CfgsExpiry", dict(MaxCodes=2, MaxAT=5, MaxRT=4, MaxNow=4, Depth=10))},
                            genx={Q: ("CfgsExpiry", 6), T: ("CfgsExpiry", 8)},
-                           sim={Q: ("CfgsExpiry", 200, 12), T: ("CfgsExpiry", 3000, 20)},
+                           sim={Q: ("CfgsExpiryC", 200, 12), T: ("CfgsExpiryC", 3000, 20)},
                            simb=dict(MaxCodes=2, MaxAT=10, MaxRT=8, MaxNow=6))]),
     "C02": dict(family="C02", mc={Q: ("CfgsOne", dict(MaxCodes=1, MaxAT=3, MaxRT=2, MaxNow=3, Depth=4)),
                                   T: ("CfgsStrategies", dict(MaxCodes=2, MaxAT=4, MaxRT=3, MaxNow=3, Depth=5))},
                 genx={Q: ("CfgsOne", 2), T: ("CfgsOne", 3)},
-                sim={Q: ("CfgsStrategies", 500, 8), T: ("CfgsStrategies", 8000, 14)},
+                sim={Q: ("CfgsStrategiesC", 500, 8), T: ("CfgsStrategiesC", 8000, 14)},
                 simb=dict(MaxCodes=3, MaxAT=8, MaxRT=6, MaxNow=4)),
     "C03": dict(family="C03", mc={Q: ("CfgsPkce", dict(MaxCodes=1, MaxAT=3, MaxRT=2, MaxNow=0, Depth=5)),
                                   T: ("CfgsPkce", dict(MaxCodes=2, MaxAT=4, MaxRT=3, MaxNow=0, Depth=6))},
                 genx={Q: ("CfgsPkce", 3), T: ("CfgsPkce", 4)},
-                sim={Q: ("CfgsPkce", 400, 8), T: ("CfgsPkce", 6000, 12)},
+                sim={Q: ("CfgsPkceC", 400, 8), T: ("CfgsPkceC", 6000, 12)},
                 simb=dict(MaxCodes=3, MaxAT=8, MaxRT=6, MaxNow=0)),
     "C04": dict(family="C04", mc={Q: ("CfgsOne", dict(MaxCodes=1, MaxAT=4, MaxRT=4, MaxNow=1, Depth=8)),
                                   T: ("CfgsStrategies", dict(MaxCodes=1, MaxAT=5, MaxRT=4, MaxNow=1, Depth=9))},
                 genx={Q: ("CfgsOne", 4), T: ("CfgsOne", 6)},
-                sim={Q: ("CfgsRefresh", 400, 16), T: ("CfgsRefresh", 6000, 30)},
+                sim={Q: ("CfgsRefreshC", 400, 16), T: ("CfgsRefreshC", 6000, 30)},
                 simb=dict(MaxCodes=3, MaxAT=16, MaxRT=14, MaxNow=5),
                 more=[dict(family="C04b", mc={Q: ("CfgsExpiry", dict(MaxCodes=0, MaxAT=4, MaxRT=4, MaxNow=4, Depth=8)),
                                                T: ("CfgsExpiry", dict(MaxCodes=0, MaxAT=6, MaxRT=6, MaxNow=5, Depth=11))},
                            genx={Q: ("CfgsExpiry", 7), T: ("CfgsExpiry", 10)},
-                           sim={Q: ("CfgsExpiry", 100, 12), T: ("CfgsExpiry", 2000, 20)},
+                           sim={Q: ("CfgsExpiryC", 100, 12), T: ("CfgsExpiryC", 2000, 20)},
                            simb=dict(MaxCodes=0, MaxAT=10, MaxRT=10, MaxNow=6))]),
     "C05": dict(family="C05", mc={Q: ("CfgsRS", dict(MaxCodes=1, MaxAT=3, MaxRT=3, MaxNow=0, MaxDev=1, Depth=4)),
                                   T: ("CfgsRefresh", dict(MaxCodes=1, MaxAT=4, MaxRT=3, MaxNow=0, MaxDev=1, Depth=5))},
                 genx={Q: ("CfgsRS", 3), T: ("CfgsRefresh", 4)},
-                sim={Q: ("CfgsRefresh", 500, 10), T: ("CfgsRefresh", 8000, 16)},
+                sim={Q: ("CfgsRefreshC", 500, 10), T: ("CfgsRefreshC", 8000, 16)},
                 simb=dict(MaxCodes=3, MaxAT=10, MaxRT=8, MaxNow=0, MaxDev=2),
                 more=[dict(family="C05b", mc={Q: ("CfgsRSB", dict(MaxCodes=1, MaxAT=3, MaxRT=2, MaxNow=0, MaxDev=1, Depth=5)),
                                                T: ("CfgsRSB", dict(MaxCodes=2, MaxAT=4, MaxRT=3, MaxNow=0, MaxDev=1, Depth=7))},
                            genx={Q: ("CfgsRSB", 4), T: ("CfgsRSB", 5)},
-                           sim={Q: ("CfgsRSB", 300, 8), T: ("CfgsRSB", 4000, 12)},
+                           sim={Q: ("CfgsRSBC", 300, 8), T: ("CfgsRSBC", 4000, 12)},
                            simb=dict(MaxCodes=2, MaxAT=8, MaxRT=6, MaxNow=0, MaxDev=2)),
                       dict(family="C05c", mc={Q: ("CfgsRS", dict(MaxCodes=0, MaxAT=4, MaxRT=4, MaxNow=0, MaxDev=1, Depth=7)),
                                                T: ("CfgsRSB", dict(MaxCodes=0, MaxAT=5, MaxRT=5, MaxNow=0, MaxDev=1, Depth=9))},
                            genx={Q: ("CfgsRS", 6), T: ("CfgsRSB", 8)},
-                           sim={Q: ("CfgsRS", 100, 10), T: ("CfgsRSB", 1500, 14)},
+                           sim={Q: ("CfgsRSC", 100, 10), T: ("CfgsRSBC", 1500, 14)},
                            simb=dict(MaxCodes=0, MaxAT=8, MaxRT=8, MaxNow=0, MaxDev=1))]),
     "C07": dict(family="C07", mc={Q: ("CfgsExpiry", dict(MaxCodes=1, MaxAT=3, MaxRT=2, MaxNow=4, Depth=7)),
                                   T: ("CfgsExpiry", dict(MaxCodes=2, MaxAT=4, MaxRT=3, MaxNow=5, Depth=9))},
                 genx={Q: ("CfgsExpiry", 4), T: ("CfgsExpiry", 5)},
-                sim={Q: ("CfgsExpiry", 500, 14), T: ("CfgsExpiry", 8000, 22)},
+                sim={Q: ("CfgsExpiryC", 500, 14), T: ("CfgsExpiryC", 8000, 22)},
                 simb=dict(MaxCodes=3, MaxAT=10, MaxRT=8, MaxNow=8)),
     "C08": dict(family="C08", mc={Q: ("CfgsOne", dict(MaxCodes=1, MaxAT=3, MaxRT=2, MaxNow=1, Depth=6)),
                                   T: ("CfgsStrategies", dict(MaxCodes=2, MaxAT=5, MaxRT=3, MaxNow=2, Depth=7))},
                 genx={Q: ("CfgsStrategies", 3), T: ("CfgsStrategies", 4)},
-                sim={Q: ("CfgsStrategies", 400, 12), T: ("CfgsStrategies", 6000, 20)},
+                sim={Q: ("CfgsStrategiesC", 400, 12), T: ("CfgsStrategiesC", 6000, 20)},
                 simb=dict(MaxCodes=3, MaxAT=10, MaxRT=8, MaxNow=4),
                 more=[dict(family="C08b", mc={Q: ("CfgsExpiry", dict(MaxCodes=0, MaxAT=3, MaxRT=3, MaxNow=4, Depth=7)),
                                                T: ("CfgsExpiry", dict(MaxCodes=0, MaxAT=4, MaxRT=4, MaxNow=4, Depth=9))},
                            genx={Q: ("CfgsExpiry", 6), T: ("CfgsExpiry", 8)},
-                           sim={Q: ("CfgsExpiry", 100, 12), T: ("CfgsExpiry", 2000, 18)},
+                           sim={Q: ("CfgsExpiryC", 100, 12), T: ("CfgsExpiryC", 2000, 18)},
                            simb=dict(MaxCodes=0, MaxAT=8, MaxRT=8, MaxNow=6))]),
     "C09": dict(family="C09", mc={Q: ("CfgsIntrospect", dict(MaxCodes=1, MaxAT=3, MaxRT=2, MaxNow=2, Depth=5)),
                                   T: ("CfgsIntrospect", dict(MaxCodes=2, MaxAT=4, MaxRT=3, MaxNow=3, Depth=6))},
                 genx={Q: ("CfgsOne", 3), T: ("CfgsIntrospect", 3)},
-                sim={Q: ("CfgsIntrospect", 500, 12), T: ("CfgsIntrospect", 8000, 20)},
+                sim={Q: ("CfgsIntrospectC", 500, 12), T: ("CfgsIntrospectC", 8000, 20)},
                 simb=dict(MaxCodes=3, MaxAT=10, MaxRT=8, MaxNow=5)),
     "C16": dict(family="C16", mc={Q: ("CfgsDevice", dict(MaxCodes=0, MaxAT=3, MaxRT=3, MaxNow=3, MaxDev=2, Depth=7)),
                                   T: ("CfgsDevice", dict(MaxCodes=0, MaxAT=4, MaxRT=4, MaxNow=3, MaxDev=2, Depth=9))},
                 genx={Q: ("CfgsDevice", 4), T: ("CfgsDevice", 5)},
-                sim={Q: ("CfgsDevice", 400, 12), T: ("CfgsDevice", 6000, 20)},
+                sim={Q: ("CfgsDeviceC", 400, 12), T: ("CfgsDeviceC", 6000, 20)},
                 simb=dict(MaxCodes=0, MaxAT=10, MaxRT=8, MaxNow=4, MaxDev=3),
                 more=[dict(family="C16b", mc={Q: ("CfgsDevice", dict(MaxCodes=0, MaxAT=3, MaxRT=3, MaxNow=4, MaxDev=1, Depth=8)),
                                                T: ("CfgsDevice", dict(MaxCodes=0, MaxAT=4, MaxRT=4, MaxNow=4, MaxDev=2, Depth=10))},
                            genx={Q: ("CfgsDevice", 7), T: ("CfgsDevice", 9)},
-                           sim={Q: ("CfgsDevice", 100, 12), T: ("CfgsDevice", 2000, 18)},
+                           sim={Q: ("CfgsDeviceC", 100, 12), T: ("CfgsDeviceC", 2000, 18)},
                            simb=dict(MaxCodes=0, MaxAT=8, MaxRT=8, MaxNow=5, MaxDev=2))]),
     "C17": dict(family="C17", mc={Q: ("CfgsPar", dict(MaxCodes=2, MaxAT=3, MaxRT=2, MaxNow=3, MaxPar=2, Depth=5)),
                                   T: ("CfgsPar", dict(MaxCodes=3, MaxAT=4, MaxRT=3, MaxNow=3, MaxPar=2, Depth=6))},
                 genx={Q: ("CfgsPar", 2), T: ("CfgsPar", 3)},
-                sim={Q: ("CfgsPar", 400, 10), T: ("CfgsPar", 6000, 16)},
+                sim={Q: ("CfgsParC", 400, 10), T: ("CfgsParC", 6000, 16)},
                 simb=dict(MaxCodes=4, MaxAT=8, MaxRT=6, MaxNow=4, MaxPar=3),
                 more=[dict(family="C17b", mc={Q: ("CfgsPar", dict(MaxCodes=2, MaxAT=3, MaxRT=2, MaxNow=4, MaxPar=2, Depth=7)),
                                                T: ("CfgsPar", dict(MaxCodes=3, MaxAT=4, MaxRT=3, MaxNow=4, MaxPar=3, Depth=9))},
                            genx={Q: ("CfgsPar", 6), T: ("CfgsPar", 8)},
-                           sim={Q: ("CfgsPar", 200, 10), T: ("CfgsPar", 3000, 16)},
+                           sim={Q: ("CfgsParC", 200, 10), T: ("CfgsParC", 3000, 16)},
                            simb=dict(MaxCodes=4, MaxAT=8, MaxRT=6, MaxNow=5, MaxPar=3))]),
 }
 DEFB = dict(MaxCodes=2, MaxAT=4, MaxRT=3, MaxNow=2, MaxDev=1, MaxPar=1, Depth=6)
